@@ -64,6 +64,9 @@ def ctx_delta_at_traversal(model, cls, handler, nodep=None, depth=0):
     if len(args) < 3:
         return []
     selfn, nodep, ctxn = args[0], args[1], args[2]
+    from ..sem import local_env
+
+    lenv = local_env(handler)
     out = []
     delta = 0
     unknown = False
@@ -99,6 +102,8 @@ def ctx_delta_at_traversal(model, cls, handler, nodep=None, depth=0):
             la = last_attr(c)
             if la in ("AcceptVisitor", "v_Visit", "v_Generic"):
                 carg = c.args[1] if len(c.args) > 1 else None
+                if isinstance(carg, ast.Name) and carg.id != ctxn and carg.id in lenv:
+                    carg = lenv[carg.id]  # e.g. loopDepth = ctx + 1
                 d = None
                 if carg is None:
                     d = "dropped"
